@@ -183,6 +183,9 @@ func runC01(c *Ctx) {
 	}
 	// every short sequence over the trigger alphabet of each extension (the sequences end a block:
 	// an extension's inline parser looks ahead from its trigger byte and must stop at the end)
+	for _, d := range attrValueDocs() {
+		docs = append(docs, wdoc{d, "attribute-values"})
+	}
 	for _, d := range triggerTokenDocs() {
 		docs = append(docs, wdoc{d, "trigger-tokens"})
 	}
@@ -425,6 +428,24 @@ func runeBoundaryDocs() []string {
 				continue
 			}
 			out = append(out, strings.ReplaceAll(t, "%s", string(r)))
+		}
+	}
+	return out
+}
+
+// attrValueDocs: every attribute value form of the attribute syntax (strings in both quotings with
+// escapes, bare words, numbers, booleans, null, lists and nested lists of all of these) under
+// names the heading filter lets through and names it drops.
+func attrValueDocs() []string {
+	atoms := []string{"1", "-1.5", "1e3", "0x1f", "true", "false", "null", "\"s\"", "'t'", "\"a\\\"b\"", "bare", "\"\"", "[]", "[1]", "[true]", "[null]", "[\"a\"]", "[\"a\", 1]", "[1, [2]]", "[[], []]", "[\"a\", [\"b\", null]]", "[", "[1", "[1,]", "[,]", "]", "1.", "-", "+1", "tru", "\"unterminated", "{}", "{a=1}"}
+	names := []string{"data-x", "title", "id", "class", "k", "style", "lang"}
+	var out []string
+	for _, a := range atoms {
+		for _, n := range names {
+			out = append(out, "# h {"+n+"="+a+"}\n", "h {."+"c "+n+"="+a+" #i}\n===\n")
+		}
+		for _, b := range atoms[:16] {
+			out = append(out, "## h {data-a="+a+" data-b="+b+"}\n")
 		}
 	}
 	return out
